@@ -70,6 +70,7 @@ inductive Expr where
   | call (f : Expr) (targs : List Ty) (args : List Expr)    -- f<T>(a)
   | newE (c : String) (targs : List Ty) (args : List Expr)   -- new C<T>(a)
   | arrow (tps : List TParam) (ps : List Param) (ret : Ret) (body : Expr)
+  | asyncArrow (tps : List TParam) (ps : List Param) (ret : Ret) (body : Expr)   -- async <T>(p: T): R => body
   | asT (e : Expr) (t : Ty)                    -- e as T
   | satisfies (e : Expr) (t : Ty)
   | angle (t : Ty) (e : Expr)                  -- <T>e
@@ -131,6 +132,7 @@ def stripE : Expr → Expr
   | .call f _ args => .call (stripE f) [] (stripEs args)
   | .newE c _ args => .newE c [] (stripEs args)
   | .arrow _ ps _ body => .arrow [] (ps.map stripParam) .none (stripE body)
+  | .asyncArrow _ ps _ body => .asyncArrow [] (ps.map stripParam) .none (stripE body)
   | .asT e _ => stripE e
   | .satisfies e _ => stripE e
   | .angle _ e => stripE e
@@ -200,6 +202,7 @@ def plainE : Expr → Bool
   | .call f targs args => plainE f && targs.isEmpty && plainEs args
   | .newE _ targs args => targs.isEmpty && plainEs args
   | .arrow tps ps ret body => tps.isEmpty && ps.all plainParam && plainRet ret && plainE body
+  | .asyncArrow tps ps ret body => tps.isEmpty && ps.all plainParam && plainRet ret && plainE body
   | .asT _ _ => false
   | .satisfies _ _ => false
   | .angle _ _ => false
@@ -318,6 +321,7 @@ def renderE : Expr → String
   | .call f targs args => renderE f ++ renderTArgs targs ++ "(" ++ sepBy ", " (renderEs args) ++ ")"
   | .newE c targs args => "new " ++ c ++ renderTArgs targs ++ "(" ++ sepBy ", " (renderEs args) ++ ")"
   | .arrow tps ps ret body => "(" ++ renderTParams tps ++ renderParams ps ++ renderRet ret ++ " => " ++ renderE body ++ ")"
+  | .asyncArrow tps ps ret body => "(async " ++ renderTParams tps ++ renderParams ps ++ renderRet ret ++ " => " ++ renderE body ++ ")"
   | .asT e t => "(" ++ renderE e ++ " as " ++ renderTy t ++ ")"
   | .satisfies e t => "(" ++ renderE e ++ " satisfies " ++ renderTy t ++ ")"
   | .angle t e => "(<" ++ renderTy t ++ ">" ++ renderE e ++ ")"
